@@ -124,46 +124,43 @@ def stub_token(kinds, line=1):
     return t
 
 
-class StubMatcher:
-    """delivers prescribed kinds: token.kinds is the set of kinds the line would match.
-    (It is a container of its call log, hence falsy while empty - a caller-supplied matcher must be used whatever its truth value.)"""
+class StubMatcher(gh.TokenMatcher):
+    """a TokenMatcher (by type) that delivers prescribed kinds: token.kinds is the set of kinds the line would match"""
 
     def __init__(self):
+        super().__init__("en")
         self.calls = []
-
-    def __len__(self):
-        return len(self.calls)
 
     def reset(self):
         pass
 
-    def __getattr__(self, name):
-        if name.startswith("match_"):
-            k = name[6:]
 
-            def m(token, k=k):
-                if not hasattr(token, "kinds"):
-                    # the parser asks about a token that did not come from the scanner object it was handed
-                    from .common import Violation
-                    raise Violation({"sub": "foreign-token", "asked": k}, "the parser was given a scanner object (anything with read()) but matches a token that object never "
-                                    "delivered: %r at %r" % (getattr(getattr(token, "line", None), "_line_text", token), getattr(token, "location", None)))
-                self.calls.append((k, token.location["line"]))
-                ok = k in token.kinds
-                if ok:
-                    token.matched_type = k
-                return ok
-            return m
-        raise AttributeError(name)
+def _stub_match(k):
+    def m(self, token):
+        if not hasattr(token, "kinds"):
+            # the parser asks about a token that did not come from the scanner object it was handed
+            from .common import Violation
+            raise Violation({"sub": "foreign-token", "asked": k}, "the parser was given a scanner object but matches a token that object never "
+                            "delivered: %r at %r" % (getattr(getattr(token, "line", None), "_line_text", token), getattr(token, "location", None)))
+        self.calls.append((k, token.location["line"]))
+        ok = k in token.kinds
+        if ok:
+            token.matched_type = k
+        return ok
+    return m
 
 
-class RecordingBuilder:
-    """(a container of the events it received, hence falsy while empty - a caller-supplied builder must be used whatever its truth value)"""
+for _name in dir(gh.TokenMatcher):
+    if _name.startswith("match_"):
+        setattr(StubMatcher, _name, _stub_match(_name[6:]))
+
+
+class RecordingBuilder(gh.AstBuilder):
+    """an AstBuilder (by type) that only records the events it receives"""
 
     def __init__(self):
+        super().__init__()
         self.ev = []
-
-    def __len__(self):
-        return len(self.ev)
 
     def reset(self):
         self.ev = []
